@@ -194,6 +194,10 @@ def run_case(ck, desc):
                 ck.violation("field-held-by-the-object-is-its-own-solution", {"nx": nx, "nt": nt, "max_change/R": float(np.max(np.abs(live - pp))) / R if live.shape == pp.shape else None, "after": "a simulate on another object with the same nx and number of time stamps"}, desc)
             pp = np.array(live, copy=True)
             ck.count("fields_judged_after_another_objects_simulate")
+        if nx == rungs[0] or nx == rungs[-1]:
+            # (the field judged below is the one the object still holds after its users have read it)
+            sim.reread_after_use(ck, desc, res, fluid, pp, t, caller_time=t, plots=True)
+            pp = np.array(res.pseudopressure, dtype=float, copy=True)
         rf = np.asarray(res.recovery_factor(), dtype=float)
         plateau = (1 - p_f / p_i) if cls == "ideal" else R  # documented plateau of the flux recovery
         late = t >= (0.4 if coarse_nt else 0.05)
